@@ -21,10 +21,17 @@ ASSUMPTIONS = ["wall-clock fields of the metrics text (execution time, instructi
 
 def with_insp(rng, c, cmd, nbits):
     out = []
+    pre_all = rng.random() < 0.5
     for l in c.lines:
         out.append(l)
         if l.endswith(".step") or l.startswith("toy.call") or l.startswith("sim.prog") or l.startswith("toy.load"):
             for _ in range(rng.choice([0, 1, 1, 2, 3])):
+                out.append(f"{cmd} {rng.randrange(1, 1 << nbits)}")
+        elif l.startswith("sim.new") or l == "toy.new":
+            # queries on the still EMPTY simulation, before the program is stored (every getter in every second case)
+            if pre_all:
+                out.append(f"{cmd} {(1 << nbits) - 1}")
+            elif rng.random() < 0.5:
                 out.append(f"{cmd} {rng.randrange(1, 1 << nbits)}")
     c.lines = out
     return c
